@@ -68,7 +68,8 @@ impl Terminal {
     pub open spec fn wf_static(&self) -> bool {
         &&& 1 <= self.cols <= MEM_MAX
         &&& 1 <= self.rows <= MEM_MAX
-        &&& self.buffer.wf()
+        &&& self.buffer.wf_geom()
+        &&& self.buffer.trim_ok()
         &&& self.other_buffer.wf()
         &&& self.top_margin <= self.bottom_margin < self.rows
         &&& self.tabs_wf()
@@ -78,6 +79,13 @@ impl Terminal {
 
     /// [C02] the invariant that holds after every public call
     pub open spec fn wf(&self) -> bool {
+        &&& self.wf_core()
+        &&& !self.buffer.lines@[self.buffer.len() - 1].wrapped
+    }
+
+    /// `wf()` except that the last row may carry a soft-wrap mark (the moment between
+    /// marking a row wrapped and scrolling it away in `print`)
+    pub open spec fn wf_core(&self) -> bool {
         &&& self.wf_static()
         &&& self.buffer.cols == self.cols
         &&& self.buffer.rows == self.rows
@@ -96,6 +104,7 @@ impl Terminal {
     /// restore_cursor) or a geometry change and the reflow that repairs the invariant
     pub open spec fn pre_reflow(&self) -> bool {
         &&& self.wf_static()
+        &&& !self.buffer.lines@[self.buffer.len() - 1].wrapped
         &&& self.cursor.col <= MEM_MAX
         &&& self.cursor.row <= MEM_MAX
         &&& (self.buffer.cols == self.cols ==> (self.cursor.row < self.rows || self.cursor.row < self.buffer.rows)
@@ -128,10 +137,22 @@ impl Terminal {
 
     pub open spec fn dirty(&self, r: int) -> bool { self.dirty_lines.0@[r] }
 
+    /// [C15] the flags of `o` plus those of rows r0..r1
+    pub open spec fn dirty_added(&self, o: Terminal, r0: int, r1: int) -> bool {
+        &&& self.dirty_lines.0@.len() == o.dirty_lines.0@.len()
+        &&& forall|r: int| 0 <= r < o.dirty_lines.0@.len() ==> (#[trigger] self.dirty(r)) == (o.dirty(r) || r0 <= r < r1)
+    }
+
+    /// [C06] the rows IL/DL act on: from the cursor down to the bottom margin, or to the last
+    /// row when the cursor is below the region
+    pub open spec fn il_end(&self) -> int {
+        if self.cursor.row <= self.bottom_margin { self.bottom_margin + 1 } else { self.rows as int }
+    }
+
     /// [C15] every view row that differs from `o`'s is flagged, and no flag is lost
     pub open spec fn dirty_sound(&self, o: Terminal) -> bool {
         &&& self.dirty_lines.0@.len() == o.dirty_lines.0@.len()
-        &&& forall|r: int| 0 <= r < o.rows ==> (#[trigger] self.dirty(r)) || (!o.dirty(r) && self.buffer.row(r).v() == o.buffer.row(r).v())
+        &&& forall|r: int| 0 <= r < o.rows ==> (#[trigger] self.dirty(r)) || (!o.dirty(r) && self.buffer.row(r).cells@ == o.buffer.row(r).cells@)
     }
 
     /// [C05] where an upward move of n from `row` ends
@@ -150,3 +171,32 @@ impl Terminal {
 
 /// [C03,C05] "missing or 0 means default"
 pub open spec fn param_or(value: u16, default: int) -> int { if value == 0 { default } else { value as int } }
+
+/// [C15] dirty-soundness composes: flags are only ever added within a call, so a row that is
+/// unflagged at the end was unflagged and unchanged at every intermediate point
+pub proof fn lemma_dirty_sound_trans(o: Terminal, m: Terminal, f: Terminal)
+    requires
+        m.dirty_sound(o),
+        f.dirty_sound(m),
+        m.rows == o.rows,
+    ensures
+        f.dirty_sound(o),
+{
+    assert forall|r: int| 0 <= r < o.rows implies (#[trigger] f.dirty(r)) || (!o.dirty(r) && f.buffer.row(r).cells@ == o.buffer.row(r).cells@) by {
+        assert(f.dirty(r) || (!m.dirty(r) && f.buffer.row(r).cells@ == m.buffer.row(r).cells@));
+        assert(m.dirty(r) || (!o.dirty(r) && m.buffer.row(r).cells@ == o.buffer.row(r).cells@));
+    }
+}
+
+/// [C15] an operation that touches neither the active buffer nor the flags is dirty-sound
+pub proof fn lemma_dirty_sound_same(o: Terminal, f: Terminal)
+    requires
+        f.buffer == o.buffer,
+        f.dirty_lines == o.dirty_lines,
+    ensures
+        f.dirty_sound(o),
+{
+    assert forall|r: int| 0 <= r < o.rows implies (#[trigger] f.dirty(r)) || (!o.dirty(r) && f.buffer.row(r).cells@ == o.buffer.row(r).cells@) by {
+        assert(f.dirty(r) == o.dirty(r));
+    }
+}
